@@ -1468,6 +1468,21 @@ func (e *nestEnv) fullCheck() {
 	e.w.L("FULL h=%d %s", e.root.h, e.dumpRoot())
 	e.opReadBack()
 	e.verifyRoot("periodic check")
+	// C06 / C07 on every slab of the write set (nested slabs: inlined children, wrappers, re-based
+	// sizes after inline <-> standalone transitions and bulk pops): reported size = encoded length,
+	// flags truthful, decode / re-encode round trip
+	ce := &codecEnv{w: e.w, st: e.st, cfg: e.cfg, prog: e.prog, step: e.step}
+	deltas := atree.VerifDeltas(e.ps)
+	ids := make([]atree.SlabID, 0, len(deltas))
+	for id, sl := range deltas {
+		if sl != nil {
+			ids = append(ids, id)
+		}
+	}
+	hx.SortIDs(ids)
+	for _, id := range ids {
+		ce.oracleSlab(deltas[id])
+	}
 	// C09: the storage holds exactly the live trees: the outermost root plus the detached containers
 	roots, err := atree.CheckStorageHealth(e.ps, 1+len(e.detached))
 	if err != nil {
